@@ -98,7 +98,7 @@ func runC01(rc *RunCtx) {
 		vers[i] = &c01version{keys: subset()}
 	}
 	vers[0].installed, vers[0].started = true, true
-	srv := startTCPServer(rc, w, tcpServerOpts{Keys: vers[0].keys, Replay: []int{0, 1000}[G.Draw(2)], Timeout: time.Second, UseSvc: false})
+	srv := startTCPServer(rc, w, tcpServerOpts{Keys: vers[0].keys, Replay: []int{0, 1000}[G.Draw(2)], Timeout: time.Second, UseSvc: false, Debug: rc.F.Draw(3) == 1})
 	rc.D("universe=%d versions=%d sizes=%v", nU, nVer, func() []int {
 		var o []int
 		for _, v := range vers {
